@@ -8,6 +8,7 @@ package mxj
 import (
 	"encoding/json"
 	"fmt"
+	"io"
 	"math"
 	"os"
 	"reflect"
@@ -470,3 +471,49 @@ func (w *vWriter) Write(p []byte) (int, error) {
 	w.calls++
 	return len(p), nil
 }
+
+// vSchedReader: an io.Reader that delivers its data under an arbitrary schedule permitted
+// by the io.Reader contract: any split into reads, the final bytes together with io.EOF
+// or before it, and up to zeroBudget interspersed (0, nil) reads. Every decision is a
+// vChoose, so a schedule is part of the replay tape.
+type vSchedReader struct {
+	data       []byte
+	pos        int
+	zeroBudget int
+	eofWithData bool // allow (n>0, io.EOF) on the final read
+	reads      int
+}
+
+func (r *vSchedReader) Read(p []byte) (int, error) {
+	r.reads++
+	if r.reads > 4*len(r.data)+64 {
+		panic(vStop{"reader polled without bound"})
+	}
+	rem := len(r.data) - r.pos
+	if len(p) == 0 {
+		return 0, nil
+	}
+	if r.zeroBudget > 0 && vChoose(2) == 1 {
+		r.zeroBudget--
+		return 0, nil
+	}
+	if rem == 0 {
+		return 0, vEOF
+	}
+	max := len(p)
+	if max > rem {
+		max = rem
+	}
+	n := 1
+	if max > 1 {
+		n = 1 + vChoose(max)
+	}
+	copy(p, r.data[r.pos:r.pos+n])
+	r.pos += n
+	if r.pos == len(r.data) && r.eofWithData && vChoose(2) == 1 {
+		return n, vEOF
+	}
+	return n, nil
+}
+
+var vEOF = io.EOF
